@@ -157,7 +157,7 @@ func encodeInto(w *W, p rtcp.Packet, o Opt) error {
 			w.padTo4()
 		}
 	case *rtcp.ApplicationDefined:
-		if v.SubType > 31 || len(v.Name) != 4 || len(v.Data) > 0xffff-12 {
+		if v.SubType > 31 || len(v.Name) != 4 || len(v.Data) > 262144-12 { // the length field counts words in 16 bits
 			return ErrNotInDomain
 		}
 		pad := (4 - len(v.Data)%4) % 4
